@@ -12,6 +12,7 @@ import (
 	"fmt"
 	"io"
 	"math"
+	"net/http"
 	"os"
 	"reflect"
 	"runtime"
@@ -307,10 +308,20 @@ func main() {
 				os.Exit(2)
 			}
 			label := kind + "/" + proto
+			// a second client of the same server whose transport accepts at most 8 bytes of reply (Rpc!CallOverLimit)
+			var clLimited *verifrpc.FStoreClient
+			if kind == "http" {
+				trL := frugal.NewFHTTPTransportBuilder(&http.Client{}, env.Addr).WithResponseSizeLimit(8).Build()
+				trL.Open()
+				clLimited = verifrpc.NewFStoreClient(frugal.NewFServiceProvider(trL, env.PF))
+			}
 			for i, seq := range cases {
-				// single calls always; call pairs rotate over the combinations
-				if len(seq) > 1 && (i+*offset+ci)%*stride != 0 {
+				// single calls always; call pairs rotate over the combinations (those that start with a fault always run)
+				if len(seq) > 1 && seq[0].Fault == "none" && (i+*offset+ci)%*stride != 0 {
 					continue
+				}
+				if seq[0].Fault == "reply-over-limit" && kind != "http" {
+					continue // only the HTTP transport lets a caller state a reply limit
 				}
 				for _, c := range seq {
 					if c.Fault == "drop-after-handler" {
@@ -326,7 +337,11 @@ func main() {
 					framesBefore := replies(tr)
 					ctx := frugal.NewFContext("")
 					ctx.SetTimeout(3 * time.Second)
-					v, cerr := call(cl, ctx, c.M, a)
+					theClient := cl
+					if c.Fault == "reply-over-limit" {
+						theClient = clLimited
+					}
+					v, cerr := call(theClient, ctx, c.M, a)
 					rp := map[string]interface{}{"transport": kind, "protocol": proto, "sequence": seq, "failing_call": c}
 					// the handler runs exactly once (a oneway call may still be on its way)
 					var calls []rig.Call
